@@ -559,6 +559,8 @@ def run(ctx):
     check_grid_data_order(ctx, "R20")
     ctx.rule("R21", "WFN / WFX primitive lists are regrouped into shells with the right row permutation (evaluated)", "the px/py/pz coefficients of a contracted shell are attached to each other's primitives")
     check_wfn_build_obasis(ctx, "R21")
+    ctx.rule("R22", "VASP header: scaling factor, element / count expansion, selective-dynamics line, Cartesian or direct coordinates (reader evaluated on model headers)", "the universal scaling factor dropped from the cell or from Cartesian positions, fractional coordinates multiplied from the wrong side, counts attached to other elements")
+    check_vasp_header(ctx, "R22")
 
 
 NARROW_POSITIVE = '''
@@ -1419,3 +1421,64 @@ def check_fchk_moment_order(ctx, rid, sides=("reader", "writer")):
         ctx.violate(rid, f"FCHK quadrupole statements raise {exc.args[0]}", lo, lo.node, construct="fchk quadrupole order: raises")
     except NotSymbolic as exc:
         raise AnalysisError(f"FCHK quadrupole statements are outside the evaluation whitelist: {exc}") from exc
+
+
+def check_vasp_header(ctx, rid):
+    """`_load_vasp_header` (POSCAR / CHGCAR / LOCPOT) interpreted on model headers, with `angstrom` standing for 1000 so
+    that a missing conversion shows: a universal scaling factor other than 1, a non-orthogonal cell, three atoms of two
+    elements, with and without the selective-dynamics line, coordinates in `Direct`, `Cartesian` and `Kartesian` mode."""
+    from ..accessors import AccessorEval, Raised, Rec
+    from ..symarr import NotSymbolic
+
+    prog = ctx.prog
+    f = prog.funcs.get("iodata.formats.chgcar._load_vasp_header")
+    if f is None:
+        raise AnalysisError("chgcar._load_vasp_header not found")
+    licls = prog.cls("iodata.utils.LineIterator")
+    A = 1000.0
+    cell = np.array([[1.0, 0.0, 0.0], [0.5, 2.0, 0.0], [0.0, 0.25, 3.0]])
+    pos = np.array([[0.1, 0.2, 0.3], [0.5, 0.5, 0.5], [0.25, 0.75, 0.125]])
+    ncase = 0
+    for scaling in (1.0, 2.0):
+        for selective in (False, True):
+            for mode in ("Direct", "direct", "Cartesian", "cart", "Kartesian"):
+                lines = ["model title\n", f"  {scaling:.14f}\n"] + ["  " + " ".join(f"{v:.10f}" for v in row) + "\n" for row in cell]
+                lines += ["   O     H\n", "   1     2\n"]
+                if selective:
+                    lines.append("Selective dynamics\n")
+                lines.append(mode + "\n")
+                lines += ["  " + " ".join(f"{v:.10f}" for v in row) + ("   F   F   F" if selective else "") + "\n" for row in pos]
+                lines += ["\n", " 2 2 2\n"]
+                lit = Rec(licls, filename="F", fh=iter(lines), lineno=0, stack=[])
+                ev = AccessorEval(prog, licls, limit=20000)
+                ev.module = f.module
+                ev._globals = {("iodata.utils", "angstrom"): A}
+                label = f"scaling {scaling}, {'with' if selective else 'no'} selective-dynamics line, `{mode}`"
+                try:
+                    title, cellvecs, atnums, atcoords = ev.run_free(f, [lit], {})
+                except Raised as exc:
+                    ctx.violate(rid, f"VASP header ({label}): the reader raises {exc.args[0]} on a well-formed header", f, f.node, construct=f"vasp header raises: {mode}")
+                    return
+                except (NotSymbolic, TypeError, ValueError) as exc:
+                    raise AnalysisError(f"chgcar._load_vasp_header is outside the evaluation whitelist: {exc}") from exc
+                ncase += 1
+                want_cell = cell * scaling * A
+                cart = mode[0].lower() in "ck"
+                want_pos = pos * scaling * A if cart else pos @ want_cell
+                bad = None
+                if title != "model title":
+                    bad = f"title read as {title!r}"
+                elif [int(x) for x in np.asarray(atnums).ravel()] != [8, 1, 1]:
+                    bad = f"elements `O H` with counts `1 2` expand to atomic numbers {[int(x) for x in np.asarray(atnums).ravel()]}, expected [8, 1, 1]"
+                elif np.asarray(cellvecs).shape != (3, 3) or np.abs(np.asarray(cellvecs, dtype=float) - want_cell).max() > 1e-6:
+                    got = np.asarray(cellvecs, dtype=float)
+                    k = np.argwhere(np.abs(got - want_cell) > 1e-6)[0] if got.shape == (3, 3) else (0, 0)
+                    bad = f"cell vector {k[0] + 1}, component {'xyz'[k[1]]} is {got[tuple(k)] if got.shape == (3, 3) else got.shape} (angstrom = {A:g}), the file says {cell[tuple(k)]} x scaling {scaling} x angstrom = {want_cell[tuple(k)]:g}"
+                elif np.asarray(atcoords).shape != (3, 3) or np.abs(np.asarray(atcoords, dtype=float) - want_pos).max() > 1e-6:
+                    got = np.asarray(atcoords, dtype=float)
+                    k = np.argwhere(np.abs(got - want_pos) > 1e-6)[0] if got.shape == (3, 3) else (0, 0)
+                    bad = f"atom {k[0] + 1}, component {'xyz'[k[1]]} is {got[tuple(k)] if got.shape == (3, 3) else got.shape}, expected {want_pos[tuple(k)]:g} (" + ("Cartesian: value x scaling x angstrom" if cart else "direct: sum_i frac_i x cell vector i") + ")"
+                if bad:
+                    ctx.violate(rid, f"VASP header ({label}): {bad}", f, f.node, construct=f"vasp header: {bad}"[:160])
+                    return
+    ctx.ok(rid, f"chgcar._load_vasp_header: {ncase} model headers (scaling 1 / 2, with / without selective dynamics, Direct / Cartesian / Kartesian spellings) give the scaled cell, the expanded elements and the right Cartesian positions", f"{f.module.relpath}:{f.lineno}")
